@@ -3,11 +3,11 @@
 (* real aligned_allocator (one process = one history), plus the stateless      *)
 (* is_aligned / get_alignment_offset / operator== / max_size observations.     *)
 EXTENDS Alloc, Json, IOUtils
-VARIABLE l
+VARIABLES l, peak          \* peak: the largest number of blocks that were live at the same time in the current history
 Log == ndJsonDeserialize(IOEnv.TRACE)
 RejectLine(e, why) == "REJECT id=" \o ToString(e.id) \o " k=" \o e.k \o " op=" \o e.op \o " t=" \o e.t \o " lanes={} archs=" \o ToString(e.archs)
                       \o " why=" \o why \o " known=-"
-Init0 == /\ l = 1 /\ heap = [live |-> {}, freed |-> {}]
+Init0 == /\ l = 1 /\ peak = 0 /\ heap = [live |-> {}, freed |-> {}]
          /\ TLCSet(1, 0) /\ TLCSet(2, 0) /\ TLCSet(3, 0) /\ TLCSet(4, 0)
 Acc == TLCSet(1, TLCGet(1) + 1) /\ TLCSet(3, TLCGet(3) + 1)
 Rej(e, why) == PrintT(RejectLine(e, why)) /\ TLCSet(2, TLCGet(2) + 1)
@@ -32,8 +32,10 @@ Step ==
             ELSE IF ENABLED DeallocWith(p, e.r[9] = 1) THEN DeallocWith(p, e.r[9] = 1) /\ Acc
             ELSE Rej(e, IF e.r[9] # 1 THEN "corrupt" ELSE "not-live") /\ heap' = [heap EXCEPT !.live = {b \in @ : b.base # Norm(p)}]
        [] e.kind = "quiesce" ->
-            \* end of one history: every block handed out has been released; the next history starts from an empty heap
-            (IF heap.live = {} THEN Acc ELSE Rej(e, "leak")) /\ heap' = [live |-> {}, freed |-> {}]
+            \* end of one history: every block handed out has been released AND the allocator has given them back: the number of blocks
+            \* it still holds from the system (e.sys, observed underneath the allocator) is at most what a pool could legitimately retain -
+            \* the peak number of simultaneously live blocks (the shipped allocator retains none); the next history starts from an empty heap
+            (IF heap.live = {} /\ e.sys <= peak THEN Acc ELSE Rej(e, IF heap.live = {} THEN "leak-inside-deallocate" ELSE "leak")) /\ heap' = [live |-> {}, freed |-> {}]
        [] e.kind = "rebind" ->
             \* allocate + deallocate through rebind<double>::other: the block is aligned to the ORIGINAL allocator's alignment and the
             \* rebound allocators compare equal to it (equal alignments)
@@ -57,6 +59,7 @@ Step ==
             LET p == Sub(e.r, 1, 8)  A == U16(e.r, 9)  regb == U16(e.r, 11) IN
             (IF AlignedTo(p, A) /\ A >= regb /\ AlignedTo(p, regb) THEN Acc ELSE Rej(e, "default-alignment")) /\ UNCHANGED heap
        [] OTHER -> Rej(e, "no-action") /\ UNCHANGED heap
+  /\ peak' = IF Log[l].kind = "quiesce" THEN 0 ELSE IF Cardinality(heap'.live) > peak THEN Cardinality(heap'.live) ELSE peak
   /\ l' = l + 1 /\ TLCSet(4, l)
 Accepted == /\ PrintT("STATS events=" \o ToString(Len(Log)) \o " consumed=" \o ToString(TLCGet(4)) \o " accepted=" \o ToString(TLCGet(1))
                        \o " rejected=" \o ToString(TLCGet(2)) \o " lanes=" \o ToString(TLCGet(3)))
